@@ -309,6 +309,23 @@ func c19Check(c blobCase) error {
 	if perr != nil {
 		return fmt.Errorf("%v\nblob (%d bytes): %x", perr, len(c.Blob), clipB(c.Blob))
 	}
+	if err != nil && len(c.Blob) <= 1<<16 {
+		// a rejected blob costs microseconds: the same call 20 more times, on this Serializer and on fresh ones. Whatever a
+		// failing call leaks per call (a token, a goroutine, a pooled decoder that is never returned) adds up inside
+		// this one case, so that a call that stops returning after some number of failures is a reproducible case.
+		perr = noPanic("Deserialize (the same rejected blob again)", func() {
+			for k := 0; k < 20; k++ {
+				sk := s
+				if k%2 == 1 {
+					sk = simdjson.NewSerializer()
+				}
+				sk.Deserialize(append([]byte(nil), c.Blob...), nil)
+			}
+		})
+		if perr != nil {
+			return fmt.Errorf("%v\nblob (%d bytes): %x", perr, len(c.Blob), clipB(c.Blob))
+		}
+	}
 	if err == nil {
 		if pj == nil {
 			return fmt.Errorf("Deserialize returned neither error nor result; blob %x", clipB(c.Blob))
